@@ -48,6 +48,33 @@ def c13_extra(ctx):
             out["violations"].append({"kind": "PROC", "group": "binary", "why": f"{len(distinct)} different reports over {runs} runs on the same directory content",
                                       "exit_codes": [r[0] for r in reports]})
         out["samples"].append({"kind": "PROC", "binary_runs": runs, "report_sha1": sorted(distinct), "report_bytes": len(reports[0][1] or b"")})
+        # (c) the same multiset of configured pattern names, written in different orders (some names repeated)
+        docs = proc.doc_names(ctx["repo"])
+        rnd = random.Random(ctx["seed"] * 7 + 3)
+        d = os.path.join(root, "order")
+        proc.make_fixture(os.path.join(d, "contracts"), rnd)
+        for trial in range(3 if ctx["tier"] == "thorough" else 2):
+            sel = {}
+            for cat in ("opt", "vuln", "qa"):
+                names = [x for x in sorted(docs[cat]) if rnd.random() < 0.6] or [sorted(docs[cat])[0]]
+                dup = rnd.choice(names)
+                sel[cat] = names + [dup] + ([dup] if rnd.random() < 0.5 else [])
+            reps = []
+            for order in range(4):
+                lines = []
+                for cat, key in (("opt", "optimizations"), ("vuln", "vulnerabilities"), ("qa", "qa")):
+                    names = list(sel[cat])
+                    rnd.shuffle(names)
+                    lines.append(f"{key} = [" + ", ".join('"%s"' % x for x in names) + "]")
+                cfg = os.path.join(d, f"order{trial}_{order}.toml")
+                open(cfg, "w").write("\n".join(lines) + "\n")
+                code, rep, err = proc.run_solstat(binary, d, ["--toml", cfg])
+                reps.append((code, rep, lines))
+                out["evaluations"] += 1
+            if len({hashlib.sha1(r[1] or b"").hexdigest() for r in reps}) != 1 or any(r[0] != 0 for r in reps):
+                out["violations"].append({"kind": "PROC", "group": "config-order", "why": "the same pattern names configured in another order give another report",
+                                          "configs": [r[2] for r in reps], "exit_codes": [r[0] for r in reps]})
+        out["coverage"]["config_order_runs"] = 4 * (3 if ctx["tier"] == "thorough" else 2)
     finally:
         shutil.rmtree(root, ignore_errors=True)
     return out
@@ -75,10 +102,12 @@ def c14_extra(ctx):
     for l in open(res, encoding="utf-8", errors="replace"):
         f = l.rstrip("\n").split("\t")
         if len(f) >= 6 and f[1] == "RESOLVE":
-            verdicts[int(f[0])] = (f[3], f[5])
+            verdicts[int(f[0])] = (f[3], f[5], f[4])
     agree = dis = 0
     for i, c in enumerate(cases):
-        a, detail = verdicts.get(i + 1, ("E", "no verdict"))
+        a, detail, drv_oracle = verdicts.get(i + 1, ("E", "no verdict", "na"))
+        if drv_oracle == "VIOL" and c["oracle"] != "VIOL":
+            c["oracle"], c["why"] = "VIOL", detail[:600]
         c2 = {k: v for k, v in c.items() if k != "request"}
         if a == "A":
             agree += 1
@@ -300,6 +329,8 @@ PROPS = {
     "C03": {
         "theorems": {
             "Solstat.Props.C03": ["pushFile_spec", "analyzeEntry_exact", "analyzeEntries_exact", "analyzeDir_exact", "analyzeEntries_ok_iff"],
+            "Solstat.Props.Pipeline": ["triples_findingsOf", "optimizationReport_of_directory", "qaReport_of_directory", "vulnerabilityReport_of_directory",
+                                       "optimizationReport_listing_order", "qaReport_listing_order"],
             "Solstat.Props.C16": ["flatMap_eligibleFilesFrom", "analyzeDir_exact'", "contentsOf_perm", "analyzeDir_perm"],
         },
         "obs": [("dir", [])],
@@ -344,6 +375,7 @@ PROPS = {
     },
     "C11": {
         "theorems": {
+            "Solstat.Props.C11Sections": ["signatures_as_reviewed"],
             "Solstat.Props.C11": ["rb_section_lines", "rb_entries", "rb_block", "rb_blocksOf", "readBack_blocks", "triples_canon_perm",
                                   "rb_severityPart", "triples_by_severity", "C11_vulnerability",
                                   "readBack_optimizationReport", "sigOK_of_b", "sigOK_opt", "sigOK_vuln", "sigOK_qa",
@@ -465,6 +497,7 @@ PROPS = {
                                   "C19_local", "solidityPragmas_keep", "versionOf_keep"],
             "Solstat.Props.C19b": ["compose_versionGated", "stringErrors_composes", "shortRevertString_composes", "incrementDecrement_composes"],
             "Solstat.Props.C19c": ["storageVarEntries_parts", "writtenNames_parts", "sstore_composes", "keep_sublist", "constantVariables_composes"],
+            "Solstat.Props.C19d": ["mem_immutableVariables", "constructorAssigns_parts", "writtenOutsideConstructors_parts", "immutableVariables_composes"],
             "Solstat.Props.Compose": ["allNodes_sourceUnit", "extract_sourceUnit"],
             "Solstat.Props.C01": ["C01", "blocked_empty"],
         },
@@ -474,7 +507,7 @@ PROPS = {
         "rule": "a case is one (file, detector): the file has >= 2 top-level items; for every item the file is re-parsed with all other non-pragma items blanked (bytes -> spaces, line feeds kept) and the real detector is run on the whole and on every blanked variant; distinct by SHA-1; non-trivial when the whole file has findings",
         "assumptions": [
             "assumption about the parser, evaluated on every sample: blanking all other items yields exactly the whole tree with those items removed and all locations unchanged (`keep i`)",
-            "proved for the 22 detectors whose verdict does not look beyond the item (C19_local), for string_errors / short_revert_string given that non-pragma items hold no `pragma solidity` (stringErrors_composes, shortRevertString_composes via versionOf_keep), for increment_decrement given that an increment of one item is not an unchecked prefix increment of another (incrementDecrement_composes), and for sstore / constant_variables under the property's own hypothesis that items do not write to each other's state variables (+ unique names for constant_variables): sstore_composes, constantVariables_composes; immutable_variables is covered by the correspondence and the oracle under that hypothesis, not by a theorem",
+            "proved for the 22 detectors whose verdict does not look beyond the item (C19_local), for string_errors / short_revert_string given that non-pragma items hold no `pragma solidity` (stringErrors_composes, shortRevertString_composes via versionOf_keep), for increment_decrement given that an increment of one item is not an unchecked prefix increment of another (incrementDecrement_composes), and for sstore / constant_variables under the property's own hypothesis that items do not write to each other's state variables (+ unique names for constant_variables): sstore_composes, constantVariables_composes, immutableVariables_composes: every detector in the property's scope has a composition theorem",
             "the two SafeMath detectors are excluded by the property (file-wide `using` by design)",
         ],
     },
